@@ -133,7 +133,8 @@ class RealRun:
     pass
 
 
-def run_history(hist, root, pack_after=None, keep_open=False, referencesf=None):
+def run_history(hist, root, pack_after=None, keep_open=False, referencesf=None, existing=False,
+                fsync_fault_at=None):
     """Execute `hist` on a fresh FileStorage at root/Data.fs under vfs recording.
     Returns RealRun with: init (directory image after creation), events (since creation), committed
     (list of txn indices whose tpc_finish returned), outcome per txn, final (Data.fs bytes),
@@ -148,13 +149,25 @@ def run_history(hist, root, pack_after=None, keep_open=False, referencesf=None):
     rr.committed, rr.outcome, rr.issued = [], [], []
     path = os.path.join(root, 'Data.fs')
     with vfs.install(rec):
-        fs = FileStorage(path)
+        try:
+            fs = FileStorage(path)
+        except Exception as e:
+            rr.open_error = ename(e) + ' ' + str(e)[:200]
+            raise
         rr.init = vfs.snapshot(root)
         n0 = len(rec.events)
         cur = {}          # oid -> tid of its last committed record
         last_data = {}    # oid -> (txn tid, data) of its last committed store/restore with data
         committed_tids = []
         undoable = []     # tids of committed transactions with status ' '
+        rr.fsync_fault = None
+        if existing:
+            # continue on a data file that already holds transactions (reopened after a crash)
+            for okey, opos in list(fs._index.items()):
+                cur[okey] = fs._read_data_header(opos, okey).tid
+            it = fs.iterator()
+            undoable = [x.tid for x in it if x.status == ' ']
+            it.close()
         for k, t in enumerate(hist):
             rec.mark('begin %d' % k)
             tid = p64(t['tid'])
@@ -213,6 +226,25 @@ def run_history(hist, root, pack_after=None, keep_open=False, referencesf=None):
                     fs.tpc_abort(md)
                     rec.mark('aborted %d' % k)
                     rr.outcome.append('abort_after')
+                elif fsync_fault_at == k:
+                    # fault injection: the fsync of Data.fs issued by this tpc_finish raises EIO
+                    import errno
+
+                    def boom(ev):
+                        if ev[0] == 'fsync' and ev[1] == 'Data.fs':
+                            rec.on_event = None
+                            rec.events.append(('mark', 'fsync failed %d' % k))
+                            raise OSError(errno.EIO, 'vfs injected fsync failure')
+                    rec.on_event = boom
+                    try:
+                        fs.tpc_finish(md)
+                        rr.fsync_fault = 'returned' if rec.on_event is None else 'no-fsync-issued'
+                        rec.mark('ret finish %d' % k)
+                    except BaseException as e:
+                        rr.fsync_fault = 'raised:' + type(e).__name__
+                    rec.on_event = None
+                    rr.outcome.append('fsync_fault')
+                    break
                 else:
                     fs.tpc_finish(md)
                     rec.mark('ret finish %d' % k)
@@ -232,9 +264,16 @@ def run_history(hist, root, pack_after=None, keep_open=False, referencesf=None):
                 fs._save_index()
                 rec.mark('saved index %d' % k)
         rr.events = rec.events[n0:]
-        rr.pos = fs._pos
+        rr.pos = getattr(fs, '_pos', None)
         with open(path, 'rb') as f:
             rr.final = f.read()
+        if fsync_fault_at is not None:
+            try:
+                fs.close()
+            except Exception:
+                pass
+            rr.all_events = rec.events[n0:]
+            return rr
         rr.packed = None
         if pack_after is not None:
             rr.pre_pack_events = len(rr.events)
@@ -501,6 +540,10 @@ def canonical_trace(events):
             where[i] = (len(can), 0)
             can.append(('ret',))
             last_was_write = False
+        elif e[0] == 'mark' and e[1].startswith('fsync failed'):
+            where[i] = (len(can), 0)
+            can.append(('fsync-failed',))
+            last_was_write = False
         elif e[0] in ('create', 'rename', 'remove') and 'Data.fs' in (e[1:3]):
             where[i] = (len(can), 0)
             can.append(('other',) + tuple(e))
@@ -554,8 +597,12 @@ def model_lines_for_run(hist, rr):
             lines += txn_lines(t)
             img[e[1]:e[1] + len(e[2])] = e[2]
             img[e[1] + 16:e[1] + 17] = can[i + 1][2]
-            lines.append('commit')
             j = i + 2
+            if j < len(can) and can[j][0] == 'fsync-failed':
+                lines.append('fsyncfail')       # tpc_finish whose fsync raised: no ret
+                j += 1
+            else:
+                lines.append('commit')
             while j < len(can) and can[j][0] in ('fsync', 'ret'):
                 j += 1
             checks[len(lines) - 1] = 'ok pos=%d len=%d fnv=%s' % (e[1] + len(e[2]), len(img), fnv64(bytes(img)))
